@@ -56,11 +56,19 @@ class Hist:
             for _ in range(r.randrange(1, 3)):
                 t = p_syntax.mutate(r, t, p_syntax.CORE + ["gg", "Bb", "m1", "\n"])
             self.files[i][1] = t
+            if r.random() < 0.3:
+                # several writes of one file in one change (the server does this for every contentChanges item): the last one counts
+                olds = [p_syntax.mutate(r, t, p_syntax.CORE + ["gg", "Bb", "\n"]) for _ in range(r.randrange(1, 3))]
+                return ("none", "none", ",".join(f"{i}:{hexs(o)}" for o in olds) + f",{i}:{hexs(t)}")
             return ("none", "none", f"{i}:{hexs(t)}")
         if k == 5 and gle:
             i = r.choice(gle)
             t = gen_scope.generate(r.randrange(1 << 30)).files[0][1]
             self.files[i][1] = t
+            if r.random() < 0.3:
+                # several writes of one file in one change (the server does this for every contentChanges item): the last one counts
+                olds = [p_syntax.mutate(r, t, p_syntax.CORE + ["gg", "Bb", "\n"]) for _ in range(r.randrange(1, 3))]
+                return ("none", "none", ",".join(f"{i}:{hexs(o)}" for o in olds) + f",{i}:{hexs(t)}")
             return ("none", "none", f"{i}:{hexs(t)}")
         if k == 6 and gle:
             i = r.choice(gle)
@@ -155,7 +163,16 @@ def has_recursion_cycle(text):
     return any(n in reach(n, set()) for n in graph)
 
 
-def classify(H, q, x, y, base):
+def classify(H, q, x, y, base, snap=None):
+    """`snap`: the workspace at the step being compared (the history object holds the FINAL texts)"""
+    texts = {}
+    if snap:
+        try:
+            for kv in snap.split("\t")[2].split(","):
+                fid, hx = kv.split(":")
+                texts[int(fid)] = common.unhexs(hx)
+        except Exception:
+            texts = {}
     if H.collide:
         return "C11/module-name-collision"
     if q.startswith("hover"):
@@ -164,7 +181,7 @@ def classify(H, q, x, y, base):
             tx, ty = common.unhexs(x.split(" ")[1]), common.unhexs(y.split(" ")[1])
         except Exception:
             tx = ty = ""
-        if tx != ty and alpha(x) != alpha(y) and has_recursion_cycle(H.files[fi][1]):
+        if tx != ty and alpha(x) != alpha(y) and has_recursion_cycle(texts.get(fi, H.files[fi][1])):
             return "C11/inference-order-in-recursion-group"
     if q.startswith("hover") and alpha(x) == alpha(y):
         return "C11/type-variable-names-depend-on-hash-order"
@@ -228,12 +245,12 @@ def run_c11(res, tier, seed):
             a_fresh = canon(fo[fi + 3 + j])
             a_fresh2 = canon(f2o[f2 + 2 + (nq - 1 - j)])
             if a_long != a_fresh:
-                key = classify(H, q, a_long, a_fresh, "C11/stale-answer/")
+                key = classify(H, q, a_long, a_fresh, "C11/stale-answer/", snap)
                 res.add_violation(key, f"history {h} step {s}: `{q}` answers {a_long[:200]!r} after the history, {a_fresh[:200]!r} on a fresh analysis",
                                   {"history": model_reqs[k], "query": q, "snapshot": snap[:2000]})
                 break
             if a_fresh != a_fresh2:
-                key = classify(H, q, a_fresh, a_fresh2, "C11/nondeterministic/")
+                key = classify(H, q, a_fresh, a_fresh2, "C11/nondeterministic/", snap)
                 res.add_violation(key, f"history {h} step {s}: `{q}` answers {a_fresh[:200]!r} and {a_fresh2[:200]!r} in two fresh processes",
                                   {"history": model_reqs[k], "query": q, "snapshot": snap[:2000]})
                 break
